@@ -93,6 +93,13 @@ func (c *ScriptConn) Read(b []byte) (int, error) {
 		c.mu.Unlock()
 		return 0, net.ErrClosed
 	}
+	if !c.RequireDeadlines && !c.readDL.IsZero() && !time.Now().Before(c.readDL) {
+		// the armed read deadline has passed already (virtual clock): like the runtime's poller, fail at once -
+		// whether or not data has arrived meanwhile
+		c.TimedOutReads++
+		c.mu.Unlock()
+		return 0, timeoutErr{}
+	}
 	for c.idx < len(c.segs) && c.off >= len(c.segs[c.idx]) {
 		c.idx++
 		c.off = 0
